@@ -90,4 +90,19 @@ inductive DeepOk : Eof → Prop
       (∀ c, c ∈ e.body.containerSection → ∃ e', Eof.decode c = .ok e') →
       (∀ c e', c ∈ e.body.containerSection → Eof.decode c = .ok e' → DeepOk e') → DeepOk e
 
+/-- every code section of the container has all its relative jumps on instruction starts -/
+def ContainerJumpsOk (e : Eof) : Prop :=
+  ∀ code, code ∈ e.body.codeSection → JumpsOnStarts code.toArray
+
+/-- `ContainerJumpsOk` for a container and, recursively, all its sub-containers -/
+inductive DeepJumpsOk : Eof → Prop
+  | mk (e : Eof) : ContainerJumpsOk e →
+      (∀ c e', c ∈ e.body.containerSection → Eof.decode c = .ok e' → DeepJumpsOk e') → DeepJumpsOk e
+
+/-- `e'` is `e` or a (transitive) sub-container of `e` -/
+inductive SubOf : Eof → Eof → Prop
+  | refl (e : Eof) : SubOf e e
+  | sub {e e1 e2 : Eof} {c : List Nat} : c ∈ e.body.containerSection → Eof.decode c = .ok e1 →
+      SubOf e1 e2 → SubOf e e2
+
 end Revm.Spec.Eof
